@@ -176,3 +176,21 @@ def has_phase(term, _memo=None):
           break
   memo[id(term)] = r
   return r
+
+
+def has_rand(term, _memo=None):
+  """Does a random draw occur anywhere in the term?"""
+  memo = _memo if _memo is not None else {}
+  if id(term) in memo:
+    return memo[id(term)]
+  r = False
+  if isinstance(term, tuple):
+    if term and term[0] == "rand":
+      r = True
+    else:
+      for t in term:
+        if isinstance(t, tuple) and has_rand(t, memo):
+          r = True
+          break
+  memo[id(term)] = r
+  return r
